@@ -9,7 +9,7 @@ namespace OP2Utility::Stream
 
 	void MemoryWriter::WriteImplementation(const void* buffer, std::size_t size)
 	{
-		if (offset + size > streamSize) {
+		if (size > streamSize - offset) {
 			throw std::runtime_error("Size of bytes to write exceeds remaining size of buffer.");
 		}
 
@@ -40,11 +40,21 @@ namespace OP2Utility::Stream
 
 	void MemoryWriter::SeekForward(uint64_t offset)
 	{
+		// this->offset + offset may wrap around, so compare against the space that remains
+		if (offset > streamSize - this->offset) {
+			throw std::runtime_error("Change in offset places write position outside bounds of buffer.");
+		}
+
 		Seek(this->offset + offset);
 	}
 
 	void MemoryWriter::SeekBackward(uint64_t offset)
 	{
+		// this->offset - offset may wrap around to a small in-bounds value
+		if (offset > this->offset) {
+			throw std::runtime_error("Change in offset places write position outside bounds of buffer.");
+		}
+
 		Seek(this->offset - offset);
 	}
 }
